@@ -754,6 +754,10 @@ async fn early_search(net: Net, seed: u64) {
     net.with(|n| { n.faults.max_latency_ms = 400; n.down = late; });
     net.log(json!({"ev":"Universe","nodes":oracle.lock().unwrap().universe_json()}));
     net.log(json!({"ev":"Scenario","coop":false,"kind":"early"}));
+    // in one run out of four, datagrams towards two nodes of the universe (known by hearsay only) cannot be sent at all
+    if seed % 4 == 1 {
+        net.with(|n| { n.send_fail.insert(addrs[2]); n.send_fail.insert(addrs[3]); });
+    }
     net.add_scripted(&addrs, Box::new(oracle.clone()));
     let me: SocketAddr = v4(10, 0, 0, 1, 7000);
     let dht = start_node(&net, &NodeCfg { addr: me, id: Some(my_id), read_only: true, announce_port: None, nodes: vec![addrs[0]], routers: vec![] });
